@@ -15,6 +15,8 @@ type TExpr struct {
 	GoT  types.Type // optional
 	Cell *CellRef   // the identifier denotes the content of a heap cell
 	Ghost string    // a ghost heap component (must be indexed)
+	FromCell string // the value was read from this heap cell (a captured variable)
+	Var   *MVar     // a caller-local mutable variable captured by a contracted closure (for modifies)
 	New   bool      // known to be allocated during the current API call (reads go to the new heap)
 	Old   bool      // known to denote an object that existed before the current API call (reads go to the old heap)
 }
@@ -239,7 +241,7 @@ func (s *Scope) el(n Node) TExpr {
 	case *NIdent:
 		if v, ok := s.lookup(n.Name); ok {
 			if v.Cell != nil {
-				return TExpr{E: s.hsel(v.Cell.Comp, v.Cell.Sort, v.Cell.Ref, false), Sort: v.Sort, GoT: v.GoT}
+				return TExpr{E: s.hsel(v.Cell.Comp, v.Cell.Sort, v.Cell.Ref, false), Sort: v.Sort, GoT: v.GoT, FromCell: v.Cell.Ref}
 			}
 			return v
 		}
@@ -482,6 +484,9 @@ func (s *Scope) elBinary(n *NBinary) TExpr {
 		return TExpr{E: e, Sort: "Bool"}
 	case "<", "<=", ">", ">=":
 		x, y = s.unify(x, y)
+		if x.Sort != "String" && x.Sort != "Int" && x.Sort != "Real" || x.Sort != y.Sort {
+			s.fail("ill-sorted comparison %s %s %s", x.Sort, n.Op, y.Sort)
+		}
 		if x.Sort == "String" {
 			switch n.Op {
 			case "<":
@@ -636,6 +641,23 @@ func (s *Scope) elCall(n *NCall) TExpr {
 		return TExpr{E: "(str.contains " + args[0].E + " " + args[1].E + ")", Sort: "Bool"}
 	case "substr":
 		return TExpr{E: "(str.substr " + args[0].E + " " + args[1].E + " " + args[2].E + ")", Sort: "String"}
+	case "pre":
+		// pre(e): e evaluated in the state in which the loop was entered (loop invariants only)
+		x := args[0]
+		x.E = strings.ReplaceAll(x.E, "@{", "@pre{")
+		return x
+	case "anyOf":
+		// anyOf(x, "Go type"): x boxed in an interface value of that dynamic type
+		lit, ok := n.Args[1].(*NStr)
+		if !ok {
+			s.fail("anyOf needs a type string")
+		}
+		gt := s.eng.goTypeOf(lit.V)
+		if gt == nil {
+			s.fail("unknown Go type %q", lit.V)
+		}
+		c := s.eng.sorts.anyCtor(gt)
+		return TExpr{E: "(" + c.Name + " " + args[0].E + ")", Sort: "Any"}
 	case "anyIs", "anyVal":
 		// anyIs(x, "Go type"): dynamic type test; anyVal(x, "Go type"): the boxed value
 		lit, ok := n.Args[1].(*NStr)
@@ -726,6 +748,12 @@ func (s *Scope) elCall(n *NCall) TExpr {
 func refOf(x TExpr) string {
 	if x.Sort == "Slice" {
 		return "(s_arr " + x.E + ")"
+	}
+	if x.Sort != "Int" && x.Sort != "Nil" {
+		if x.FromCell != "" {
+			return x.FromCell // a captured bool/string/... variable: the reference is its cell
+		}
+		panic(elabErr(fmt.Sprintf("reference expected, got a value of sort %s (%s)", x.Sort, x.E)))
 	}
 	return x.E
 }
